@@ -70,7 +70,7 @@ Print Assumptions C03_alt_branch_no_leak.
 
 (* non-vacuity: `let A := 1, 2; A A add` run by the engine model *)
 Example C03_nonvacuous :
-  let tc := ValueM.mktc 2 3 4 5 in
+  let tc := ValueM.mktc 2 3 4 5 [] in
   let P := mkparams tc (fun _ => 1%N) in
   let A := nm "A" in
   let t := TCat [TSubx 1 (TScope (TAlt [TConst 1 DDec; TConst 2 DDec])); TBind A; TRead A; TRead A; TRead (nm "add")] in
